@@ -2,7 +2,7 @@ SPEC = dict(
     id="C29",
     bin="c29",
     cases_quick=2400,
-    cases_thorough=120000,
+    cases_thorough=50000,
     level="proof",
     technique="Coq theorems over a Gallina model of try_adjust_price_with_max_deviation_factor and of the pipeline adjust -> validate_one (deviation) -> SmallPrices::from_price + differential correspondence with (a) the private function through a cfg(gmsol_verif) wrapper, (b) the REAL pipeline Oracle::with_prices_opts on in-memory custom price-feed accounts with a stubbed clock, (c) a hook-composed pipeline reaching reference = mid and mixed multipliers + band oracle on the Rust outputs",
     text="For all u32 values, multipliers <= 20, explicit or mid reference and all u128 factors: an adjusted price keeps its multipliers, its max is floor((r+dev)/step) <= r+dev and its min is ceil((r-dev)/step) >= r-dev; if it is then accepted by validate_one and from_price it satisfies 0 < min <= max and r-dev <= min <= max <= r+dev; an inverted or zero price is never accepted.  Known class 1: when the adjustment function returns None because the clamped value is not representable, the unchanged price is accepted if it is inside the deviation rounded up to the precision step.",
